@@ -692,6 +692,8 @@ func coerceToFunction(arg Object) (result Object) {
 	switch ta := arg.(type) {
 	case Symbol:
 		result = MustFindFunc(string(ta))
+	case String:
+		result = MustFindFunc(string(ta))
 	case *Lambda:
 		result = ta
 	default:
